@@ -1125,6 +1125,17 @@ func (e *Env) evalCall(n *spec.Call) (SV, error) {
 			return SV{T: PObj(IPl(v.T))}, nil
 		}
 		return SV{}, fmt.Errorf("obj() of %s", v.T.Sort)
+	case "at":
+		// at(x): the absolute cell index of an addressable spec value -- for a variable bound by
+		// `elems(s)` its position in the array behind s (at(x) - off(s) is the element's index)
+		v, err := arg(0)
+		if err != nil {
+			return SV{}, err
+		}
+		if v.Loc == nil {
+			return SV{}, fmt.Errorf("at() of a value that has no location")
+		}
+		return SV{T: v.Loc.Off}, nil
 	case "off":
 		v, err := arg(0)
 		if err != nil {
